@@ -103,13 +103,14 @@ var All = []*Prop{
 	},
 	{
 		ID:    "C18",
-		Rules: []*core.Rule{rules.MapEncaps, rules.KeyNorm, rules.LazyScan, rules.NumBirth},
+		Rules: []*core.Rule{rules.MapEncaps, rules.KeyNorm, rules.Tombstone, rules.LazyScan, rules.NumBirth},
 		Explanation: "R-MAPENCAPS: every write of a field of mapEntry/orderedMap/orderedMapIter and every access of their link fields lies in methods of those types (the tombstone/linked-list invariants are then local to map.go); size is +1 only on the insertion edge of set, -1 only on the found edge of remove, 0 only in clear. " +
+			"R-TOMBSTONE (live iteration under deletion, structural half): remove() marks the found entry with key = nil and leaves that entry's own iterPrev intact, clear() marks every entry inside its loop, and next() takes the iterPrev step inside a loop controlled by key == nil (any number of adjacent tombstones). " +
 			"R-KEYNORM: in lookup the hashed and compared key, and in set the stored key, is φ(key, intToValue(0)) under key == _negativeZero. " +
 			"Key equality across representations: R-LAZYSCAN (an imported Go string never consults its lazily computed UTF-16 form, nor uses its raw bytes for anything encoding-sensitive, before the scan ran; hash() scans) and R-NUMBIRTH (canonical numbers, see C05) — SameValueZero lookups are hash-then-SameAs on representations.",
 		Technique:  "field ownership (who-may-write/read), SSA phi/dominance check of key normalisation, guard-freshness dataflow for the lazy string scan, who-may-construct for numbers",
 		DesignRef:  "DESIGN.md section 4, C18",
-		NotCovered: "iterator liveness under deletion/clear/refill (the tombstone walk in orderedMapIter.next and the relinking in remove/clear): a history property of the data structure, not decided by this family; agreement of the per-type hash functions with SameValueZero beyond the lazy-scan clause",
+		NotCovered: "iterator liveness under deletion/clear/refill as a whole (the relinking arithmetic in remove/clear, entries added after clear): a history property of the data structure; only the structural half (R-TOMBSTONE) is decided; agreement of the per-type hash functions with SameValueZero beyond the lazy-scan clause",
 	},
 	{
 		ID:    "C20",
